@@ -458,6 +458,10 @@ func (e *tsEngine) analyze(f *ssa.Function) (*tsSummary, []tsFinding) {
 				effectInstrs[in] = "register write"
 				return
 			}
+			if calleeName(x) == "notifyParentIfNeeded" {
+				// the parent re-sets this container in itself and stores its slab (and so do its ancestors)
+				effectInstrs[in] = "parent notification (the parent is re-set and stored)"
+			}
 			if cc.IsInvoke() && cc.Method.Name() == "Storable" && typeName(cc.Value.Type()) == "Value" {
 				effectInstrs[in] = "Value.Storable (may inline/uninline, allocate and store)"
 				return
@@ -735,7 +739,7 @@ func (e *tsEngine) analyze(f *ssa.Function) (*tsSummary, []tsFinding) {
 		if !lastResultIsError(f) {
 			continue
 		}
-		ev := canon(ret.Results[len(ret.Results)-1])
+		ev := canon(resolveNamedResult(ret, len(ret.Results)-1))
 		found := false
 		sliceContains(ev, func(v ssa.Value) bool {
 			c, ok := v.(*ssa.Call)
